@@ -247,6 +247,20 @@ impl<'a> SemanticBuilder<'a> {
         }
     }
 
+    /// length of a line in characters, without its line terminator
+    fn line_length(&self, line: u32) -> u32 {
+        self.document
+            .get_line_range(line as usize)
+            .map(|range| {
+                self.document
+                    .get_text_slice(range)
+                    .trim_end_matches(['\r', '\n'])
+                    .chars()
+                    .count() as u32
+            })
+            .unwrap_or(0)
+    }
+
     fn push_data(&mut self, range: TextRange, typ: u32, modifiers: u32) {
         let position = range.start();
         if !self.seen_positions.insert(position) {
@@ -268,10 +282,11 @@ impl<'a> SemanticBuilder<'a> {
 
         if !self.multi_line_support && start_line != end_line {
             let mut multi_line_data = vec![];
+            // without multi-line support every piece ends where its own line ends
             multi_line_data.push(BasicSemanticTokenData {
                 line: start_line,
                 col: start_col,
-                length: 9999,
+                length: self.line_length(start_line).saturating_sub(start_col),
                 typ,
                 modifiers,
             });
@@ -280,7 +295,7 @@ impl<'a> SemanticBuilder<'a> {
                 multi_line_data.push(BasicSemanticTokenData {
                     line: i,
                     col: 0,
-                    length: 9999,
+                    length: self.line_length(i),
                     typ,
                     modifiers,
                 });
@@ -377,7 +392,8 @@ impl<'a> SemanticBuilder<'a> {
             }
         }
 
-        data.sort_unstable_by(|a, b| {
+        // stable: of two tokens at one position the one pushed first wins
+        data.sort_by(|a, b| {
             let line1 = a.line;
             let line2 = b.line;
             if line1 == line2 {
@@ -388,11 +404,24 @@ impl<'a> SemanticBuilder<'a> {
             line1.cmp(&line2)
         });
 
-        let mut result = Vec::with_capacity(data.len());
+        // `seen_positions` only knows token starts; the pieces of a multi-line token and tokens pushed
+        // by position can still collide. The protocol forbids overlapping tokens: keep the first.
+        let mut kept: Vec<BasicSemanticTokenData> = Vec::with_capacity(data.len());
+        for token_data in data {
+            if let Some(prev) = kept.last()
+                && prev.line == token_data.line
+                && token_data.col < prev.col + prev.length.max(1)
+            {
+                continue;
+            }
+            kept.push(token_data);
+        }
+
+        let mut result = Vec::with_capacity(kept.len());
         let mut prev_line = 0;
         let mut prev_col = 0;
 
-        for token_data in data {
+        for token_data in kept {
             let line_diff = token_data.line - prev_line;
             if line_diff != 0 {
                 prev_col = 0;
